@@ -394,6 +394,11 @@ func (w *World) IO(kind string, off, length int64, faults map[*Fake]Outcome) {
 	}
 	// ---- read
 	nRW := modeCount(pre, types.RW)
+	if err == nil && int64(n) != length {
+		// neither the data nor an error: a caller that trusts err (io.ReaderAt) would use an unfilled buffer
+		w.Fail("C04", "read-returned-short-without-error", fmt.Sprintf("ReadAt(%d bytes at %d) returned n=%d, err=nil; faults %v; %s", length, off, n, fs, digest(pre, true)))
+		return
+	}
 	for _, a := range served {
 		if !readers[a] {
 			w.Fail("C04", "read-served-by-non-RW:"+string(A[a]), fmt.Sprintf("read served by %s which is %q, not RW: %s", a, A[a], digest(pre, true)))
